@@ -1638,7 +1638,7 @@ func (a *opAdapter) HandleEventBatch(ctx context.Context, batch []*workerpb.Even
 	return a.call("Operator.HandleEvent", func(w *worker) error {
 		for _, e := range batch {
 			var err error
-			for try := 0; try < 2000; try++ { // the RPC client retries Unavailable (operator still loading)
+			for try := 0; try < 120000; try++ { // the RPC client retries Unavailable (operator still loading)
 				err = w.op.HandleEvent(ctx, a.senderID, e)
 				// only the operator's own "not ready" is retried: an Unavailable that comes back from further down (the
 				// operator's acknowledgement to a dead job) must not make the event be delivered twice
